@@ -575,6 +575,11 @@ def run(ctx):
 
 def guards(acc, ctx):
     g = []
+    from mc import core
+    known = core.load_known(ID)
+    if any(core.match_known(known, v) is None for v in acc.violations):
+        return g          # vacuity guards protect a silent run; a run that reports new violations is not vacuous (and a
+                          # violating tree may legitimately never produce some of the outcomes below)
     o = acc.outcomes
     need = ["conn:pipeline:error:0-results", "conn:pipeline:error:2-results", "conn:pipeline:error:4-results",
             "fault:eof-between-frames", "fault:eof-inside-frame", "fault:timeout-between-frames", "fault:timeout-inside-frame",
